@@ -80,7 +80,10 @@ RULE = ("one real session per case (initiator / acceptor, memory / file / no per
         "each drawn from ALL public send entry points of Session, mixed across and within threads -- send(Message*) with "
         "destroy true / false, the by-reference send(Message&), send_batch with destroy true / false -- plus contention "
         "cases (4-8 threads x 500-1000 sends without yields, by reference only / against the other entry points) (batches of 1-4, application messages of four types and administrative messages, every "
-        "body carries thread id and index), at most 4000 messages; batches of 79-170 messages (up to 8 KB each) whose total size is just below / exactly at / just above the capacity of "
+        "body carries thread id and index), at most 4000 messages; 2-3 threads calling send_batch with message counts that outgrow the batch buffer step by step (10 fits; 11, 21, 41, 81 = "
+        "one more than the capacity reached so far, derived from the reserve expression), each call released while another "
+        "thread's batch is in flight (release point = next_send reached a given value; the harness delays the freeing of "
+        "blocks >= 64 KB until two more messages are through); batches of 79-170 messages (up to 8 KB each) whose total size is just below / exactly at / just above the capacity of "
         "Session::_batchmsgs_buffer (parsed from the tree under test) with the crossing on the last or an inner message, a second "
         "crossing at twice the capacity, sequentially (BATCH) and inside CONC in both process models, with foreign singles; long "
         "single messages; small cases aimed at the boundaries (empty program, one "
@@ -233,7 +236,7 @@ def run_impl(built, cases, tier):
     # interleave so that every shard gets big and small cases
     shards = [a_idx[k::n] for k in range(n)]
     with ThreadPoolExecutor(max_workers=n + 2) as ex:
-        futs = [ex.submit(core.run_lines, built["impl"], [lines[i] for i in sh], 300, 90, built.get("env")) for sh in shards]
+        futs = [ex.submit(core.run_lines, built["impl"], [lines[i] for i in sh], 2400 if tier == "thorough" else 400, 300 if tier == "thorough" else 120, built.get("env")) for sh in shards]
         tfuts = [(i, ex.submit(_run_tsan, built, lines[i])) for i in t_idx]
         for sh, f in zip(shards, futs):
             for i, r in zip(sh, f.result()):
@@ -478,6 +481,53 @@ def boundary_cases(rng, thorough):
     return cs
 
 
+def batch_unit():
+    """bytes per message in the reserve expression of _batchmsgs_buffer: the parenthesised factor of
+    reserve(10 * (FIX8_MAX_MSG_LENGTH + HEADER_CALC_OFFSET)) -- 8224"""
+    cap = batch_capacity()
+    src = open(os.path.join(B.REPO, "runtime/session.cpp")).read()
+    m = re.search(r"_batchmsgs_buffer\.reserve\(\s*(\d+)\s*\*", src)
+    if cap and m and int(m.group(1)) > 0 and cap % int(m.group(1)) == 0:
+        return cap // int(m.group(1))
+    return None
+
+
+def growth_case(rng, pm, nthreads, nbatches, size=2000, at=0.2, san=None, counts=None):
+    """send_batch calls whose message COUNTS outgrow the batch buffer step by step, dealt round robin to the threads, each
+    released while the previous one -- another thread's -- is in flight (release point = `at` of the way through it).
+    The buffer is reserved for cap/unit = 10 messages of maximal size; std::string grows to max(needed, twice the old
+    capacity), so a call that sized the buffer by its message count would reallocate at counts 11, 21, 41, 81, ...:
+    the counts used here are 10 (fits), then each time one more than the capacity so reached.  Anything send_batch does
+    to _batchmsgs_buffer BEFORE FIXWriter::write_batch takes _con_spl then meets a send_process that is appending to it
+    (the harness lets two more messages through before a big block is freed, see h_c25.cpp)."""
+    cap, unit = batch_capacity(), batch_unit()
+    if counts is None:
+        if not cap or not unit:
+            counts = [10, 11, 21, 41, 81][:nbatches]
+        else:
+            counts, c = [cap // unit], cap
+            while len(counts) < nbatches:
+                k = c // unit + 1
+                counts.append(k)
+                c = max(k * unit, 2 * c)
+    st = start_op(rng, pm, san, persist=rng.choice(["mem", "none"]))
+    progs = [[] for _ in range(nthreads)]
+    idx = [0] * nthreads
+    done, prev = 0, 0
+    for j, k in enumerate(counts):
+        t = j % nthreads
+        specs = []
+        for _ in range(k):
+            specs.append(S.spec("D", [(11, "t%d.%d" % (t, idx[t])), (21, "1"), (55, "IBM"), (54, "1"), (60, S.ts(S.T0)), (40, "1"),
+                                      (58, "x" * max(1, size + rng.randrange(-100, 100)))]))
+            idx[t] += 1
+        rel = "@%d" % (done + max(1, int(prev * at))) if j else ""
+        progs[t].append(rng.choice("BBC") + rel + ":" + ";".join(specs))
+        done += prev
+        prev = k
+    return st + "|CONC " + " ".join("+".join(p) if p else "-" for p in progs)
+
+
 def small_cases(rng, pm):
     cs = []
     d = lambda t, i: S.spec("D", [(11, "t%d.%d" % (t, i)), (21, "1"), (55, "IBM"), (54, "1"), (60, S.ts(S.T0)), (40, "1")])
@@ -544,7 +594,15 @@ def gen_cases(rng, tier):
     cs.append(Case(contention_case(rng, "thread", 4, 600, "RS"), "contention-mixed"))
     cs.append(Case(contention_case(rng, "thread", 8, 300, "RSP", "BC"), "contention-mixed"))
     cs.append(Case(contention_case(rng, "coro", 6, 400, "RRSP"), "contention-mixed"))
+    # message COUNTS that outgrow the batch buffer (10 | 11, 21, 41, 81), each batch released while another thread's is in flight
+    for pm, nt, nb, sz, at in (("thread", 2, 5, 2000, 0.2), ("thread", 3, 4, 3000, 0.15), ("thread", 2, 5, 1500, 0.2),
+                               ("coro", 2, 4, 1500, 0.25), ("pipeline", 2, 5, 2000, 0.2), ("pipeline", 3, 5, 2500, 0.15)):
+        cs.append(Case(growth_case(rng, pm, nt, nb, size=sz, at=at), "batch-growth-" + pm))
     if thorough:
+        for _ in range(10):
+            cs.append(Case(growth_case(rng, rng.choice(["thread", "pipeline", "coro"]), rng.randint(2, 4), rng.randint(3, 6),
+                                       size=rng.choice([300, 1500, 3000]), at=rng.choice([0.15, 0.2, 0.5])), "batch-growth"))
+        cs.append(Case(growth_case(rng, "thread", 2, 6, counts=[11, 12, 13, 20, 22, 45]), "batch-growth"))
         for _ in range(12):
             cs.append(Case(contention_case(rng, rng.choice(["thread", "thread", "coro"]), rng.randint(4, 8), rng.choice([400, 500]),
                                            rng.choice(["R", "RS", "RSP", "RRSP"]), rng.choice(["", "BC"])), "contention-mixed"))
@@ -643,7 +701,7 @@ def pardriver_main(argv):
         lines.pop()
     raws = open(side, "rb").read().split(b"\n")
     raws += [b""] * (len(lines) - len(raws))
-    n = max(1, min(8, len(lines) // 4))
+    n = max(1, min(8, max(len(lines) // 4, sum(1 for r in raws if len(r) > 200000))))
     order = sorted(range(len(lines)), key=lambda i: -len(raws[i]))
     shards, load = [[] for _ in range(n)], [0] * n
     for i in order:
